@@ -53,6 +53,7 @@ func CheckC11(c *Ctx) {
 	}
 	info := hp.TypesInfo
 	c.structTagNames()
+	c.csvOptions()
 	get := c.fn("helper", "", "getReflectValue")
 	set := c.fn("helper", "", "setReflectValue")
 	if get == nil || set == nil {
@@ -772,4 +773,72 @@ func (c *Ctx) structTagNames() {
 	}
 	run.Count("tagged_structs", nStructs)
 	run.Floor("tagged_structs", 2)
+}
+
+// csvOptions: the codec reads with encoding/csv's defaults what it wrote with encoding/csv's
+// defaults. An option set on one side only changes the language one side accepts: a Comment
+// character makes the reader drop lines the writer emits unquoted, LazyQuotes and
+// TrimLeadingSpace change field contents, a Comma must be the same on both sides.
+func (c *Ctx) csvOptions() {
+	run := c.Run
+	hp := c.P.Pkg("helper")
+	info := hp.TypesInfo
+	commaR, commaW := "", ""
+	n := 0
+	for _, f := range hp.Syntax {
+		if strings.HasSuffix(c.P.Fset.Position(f.Pos()).Filename, "_test.go") {
+			continue
+		}
+		ast.Inspect(f, func(nd ast.Node) bool {
+			as, ok := nd.(*ast.AssignStmt)
+			if !ok {
+				return true
+			}
+			for i, l := range as.Lhs {
+				sel, ok := l.(*ast.SelectorExpr)
+				if !ok {
+					continue
+				}
+				t := info.TypeOf(sel.X)
+				if t == nil {
+					continue
+				}
+				ts := t.String()
+				if ts != "*encoding/csv.Reader" && ts != "*encoding/csv.Writer" && ts != "encoding/csv.Reader" && ts != "encoding/csv.Writer" {
+					continue
+				}
+				n++
+				side := "reader"
+				if strings.HasSuffix(ts, "Writer") {
+					side = "writer"
+				}
+				val := ""
+				if i < len(as.Rhs) {
+					val = exprString(as.Rhs[i])
+				}
+				switch sel.Sel.Name {
+				case "Comma":
+					if side == "reader" {
+						commaR = val
+					} else {
+						commaW = val
+					}
+					run.Oblige(true)
+				case "ReuseRecord", "FieldsPerRecord", "UseCRLF":
+					run.Oblige(true) // do not change which rows and cells are read back
+				default:
+					run.Oblige(false)
+					c.violate("codec-agreement/csv-options", "helper", side+"."+sel.Sel.Name, as.Pos(),
+						"the CSV "+side+" sets "+sel.Sel.Name+" = "+val+": the other side of the codec does not know about it, so some rows or cells it writes are read back differently (a Comment character drops every line that starts with it; the writer does not quote such a cell)")
+				}
+			}
+			return true
+		})
+	}
+	good := commaR == commaW
+	run.Oblige(good)
+	if !good {
+		c.violate("codec-agreement/csv-options", "helper", "Comma", hp.Syntax[0].Pos(), "reader and writer use different separators ("+commaR+" / "+commaW+")")
+	}
+	run.Count("csv_option_assignments", n)
 }
